@@ -38,7 +38,11 @@ Record case := mkCase {
   c_sched : list bool;             (* include_private setting before each next() *)
   o_m_sw : trace; o_n_sw : trace;
   (* tags / metadata / matches / module-output iterators: expected item count (when the rule set fixes it), trace *)
-  o_others : list (option nat * trace) }.
+  o_others : list (option nat * trace);
+  (* what each rule of the results says about itself: id, is_private, is_global, namespace number *)
+  o_flags : list (nat * bool * bool * N);
+  (* asking for the iterators a second time gives the same traces *)
+  o_again_same : bool }.
 
 Definition model_m (rules : list rule) (c : ctx) (inc : bool) : trace :=
   drain (is_priv rules) (include_private (matching_iter rules c) inc).
@@ -69,7 +73,13 @@ Definition check_case (k : case) : bool :=
              let pats := nth id (c_pats k) [] in
              trace_eqb (model_p pats false) t0 && trace_eqb (model_p pats true) t1)
           (o_pats k) &&
-  forallb (fun o => match fst o with Some n => Nat.eqb (trace_items (snd o)) n | None => true end) (o_others k).
+  forallb (fun o => match fst o with Some n => Nat.eqb (trace_items (snd o)) n | None => true end) (o_others k) &&
+  Nat.eqb (length (o_flags k)) (length (c_rules k)) &&
+  forallb (fun f => let '(id, p, g, ns) := f in
+             match nth_error (c_rules k) id with
+             | Some r => Bool.eqb p (r_priv r) && Bool.eqb g (r_glob r) && N.eqb ns (r_ns r)
+             | None => false
+             end) (o_flags k).
 
 (* S evaluated on the implementation's own output: every iterator announces,
    before each next(), exactly the number of items it is still going to yield,
@@ -110,7 +120,7 @@ Definition spec_case (k : case) : bool :=
   trace_sw_ok (o_m_sw k) (length (c_sched k)) && trace_sw_ok (o_n_sw k) (length (c_sched k)) &&
   trace_exact (o_m0 k) && trace_exact (o_m1 k) && trace_exact (o_n0 k) && trace_exact (o_n1 k) &&
   forallb (fun o => let '(_, t0, t1) := o in trace_exact t0 && trace_exact t1) (o_pats k) &&
-  forallb (fun o => trace_exact (snd o)) (o_others k) &&
+  forallb (fun o => trace_exact (snd o)) (o_others k) && o_again_same k &&
   (* partition, private rules included *)
   list_nat_eqb (sort_nat (ids_of (o_m1 k) ++ ids_of (o_n1 k))) (seq 0 (length (c_rules k))) &&
   (* without include_private only non-private rules are yielded *)
